@@ -60,7 +60,7 @@ class C24(Prop):
         "run, update_handler_status (status or none, idle_since set/cleared/unset, stale run ids), delete with >=1 filter, query with every "
         "filter each absent / empty list / non-empty list; after every mutating operation the full content of both real stores is compared "
         "with a list model (memory store: model plus retention = all non-terminal handlers and exactly the max_completed most recently "
-        "completed terminal ones, 'most recent' accepted either as last terminal update or as last transition into a terminal status), every "
+        "completed terminal ones, 'most recent' = most recent terminal write, the moment completed_at is stamped), every "
         "query/delete is compared with the model's filter predicate, and at the end all 32 present/absent filter combinations are queried. "
         "Non-trivial = a query/delete with >=2 filters that selected a non-empty proper subset, or a retention eviction happened."
     )
@@ -252,8 +252,11 @@ class C24(Prop):
             if n:
                 ea = set(sorted(terms, key=lambda k: last_terminal_update[k])[:n])
                 eb = set(sorted(terms, key=lambda k: became_terminal[k])[:n])
-                if gone != ea and gone != eb:
-                    r.v("mem_evicted_not_oldest", **attrs)
+                # "most recently completed" = most recent terminal write: that is the moment the record's own completed_at is
+                # stamped (update_handler_status re-stamps it on every terminal status update), so a handler whose terminal row
+                # is written again is the newest completion, not the one that first became terminal
+                if gone != ea:
+                    r.v("mem_evicted_not_oldest", follows_first_transition=(gone == eb), **attrs)
                     return
                 stats["evictions"] += len(gone)
                 classes.add("evicted")
